@@ -198,6 +198,11 @@ def fault_op(rng: random.Random, snap: observe.Snap, ctx: Ctx):
         op = {"op": k}
         if k == "restart_abstract":
             op["skip"] = rng.random() < 0.7
+            if any(not isinstance(q, str) for q in ctx.qids):
+                # the abstract representation stringifies integer qubit ids: the
+                # run cannot go on with the restored object, so it is compared
+                # as a separate one
+                return "restart/roundtrip_abstract", {"op": "obs_roundtrip", "kind": "abstract", "skip": op["skip"]}
         return "restart/" + k, op
     if kind == "cache":
         return "cache/clear", {"op": "cache_clear"}
